@@ -198,6 +198,26 @@ func (g *Gen) Program() []core.Op {
 	var prog []core.Op
 	prog = append(prog, &Op{Kind: "mkbucket", B: "bk"})
 	p := g.P
+	if p.Compose > 0 && len(p.Names) >= 5 && g.R.Chance(1, 3) {
+		// aliasing probe: two composes (or a compose and a copy) that start from the same source must not
+		// disturb each other's results nor the source
+		ns := p.Names
+		up := func(n string, c []byte) {
+			prog = append(prog, &Op{Kind: "upload", B: "bk", N: n, Content: c, Declared: "none", Proto: core.Pick(g.R, []string{"media", "multipart"}), Meta: Meta{CT: "text/plain"}})
+		}
+		up(ns[0], core.Pick(g.R, Payloads))
+		up(ns[1], []byte("tail-one"))
+		up(ns[2], []byte("TAIL-2"))
+		prog = append(prog, &Op{Kind: "compose", B: "bk", N: ns[3], HasMeta: true, Srcs: []Src{{Name: ns[0]}, {Name: ns[1]}}})
+		if g.R.Chance(1, 2) {
+			prog = append(prog, &Op{Kind: "compose", B: "bk", N: ns[4], HasMeta: true, Srcs: []Src{{Name: ns[0]}, {Name: ns[2]}}})
+		} else {
+			prog = append(prog, &Op{Kind: "compose", B: "bk", N: ns[4], HasMeta: true, Srcs: []Src{{Name: ns[3]}, {Name: ns[2]}}})
+		}
+		for _, n := range ns[:5] {
+			prog = append(prog, &Op{Kind: "getmedia", B: "bk", N: n})
+		}
+	}
 	n := p.MinOps + g.R.Intn(p.MaxOps-p.MinOps+1)
 	w := []int{p.Upload, p.Resumable, p.GetMeta, p.GetMedia, p.Patch, p.Delete, p.Compose, p.Copy, p.List, p.ListBad, p.MkBucket, p.RmBucket, p.Reopen, p.GetBucket, p.Plant}
 	for i := 0; i < n; i++ {
